@@ -50,7 +50,38 @@ def expected(header):
     return (m.group('dots') + m.group('name')).decode('ascii'), opts
 
 
+class Timeout(BaseException):
+    pass
+
+
+class UnitAborted(BaseException):
+    pass
+
+
+WATCHDOG_S = 5
+_TIMEOUTS = [0]
+_IN_REPLAY = [False]
+
+
+def _alarm(signum, frame):
+    raise Timeout()
+
+
 def read_header(data, nrec):
+    import signal
+    signal.signal(signal.SIGALRM, _alarm)
+    signal.setitimer(signal.ITIMER_REAL,
+                     2 if _IN_REPLAY[0] else WATCHDOG_S)
+    try:
+        return _read_header(data, nrec)
+    except Timeout as e:
+        _TIMEOUTS[0] += 1
+        return [], e
+    finally:
+        signal.setitimer(signal.ITIMER_REAL, 0)
+
+
+def _read_header(data, nrec):
     r = DiffXReader(io.BytesIO(data))
     recs = []
     try:
@@ -72,6 +103,9 @@ def check_header(header, context=PRE, index=1, tail=b''):
     recs, exc = read_header(data, index)
     v = []
     got_rec = recs[index] if len(recs) > index else None
+    if isinstance(exc, Timeout):
+        return [('does-not-terminate', 'no result within %d s for header %r'
+                 % (WATCHDOG_S, header[:120]))]
     if exc is not None and not isinstance(exc, DiffXParseError) \
             and got_rec is None:
         return [('other-exception:%s:%s' % (type(exc).__name__,
@@ -244,6 +278,14 @@ CONTEXTS = {
 
 def run_unit(unit, tier):
     acc = Acc()
+    try:
+        _run_unit(unit, tier, acc)
+    except UnitAborted:
+        pass
+    return acc
+
+
+def _run_unit(unit, tier, acc):
 
     def one(header, payload_extra=None, **kw):
         viols = check_header(header, **kw)
@@ -258,6 +300,10 @@ def run_unit(unit, tier):
             p.update(payload_extra or {})
             acc.violation(key, msg, p)
         acc.outcome('accept' if expected(header) else 'reject')
+        if _TIMEOUTS[0] >= 2:
+            _TIMEOUTS[0] = 0
+            acc.cap_hit = True
+            raise UnitAborted()
 
     if unit[0] == 'chars-short':
         for n in (0, 1):
@@ -325,6 +371,15 @@ def run_unit(unit, tier):
                       + b',x=1',
                       b'#.change: a=1, ' + b'b=' + v + b', c=3'):
                 one(h)
+        for n in (5000, 200, 64, 40, 32, 28, 24, 16):
+            run = (b'a1B2c3D4' * (n // 8 + 1))[:n]
+            for bad in (b'+', b':', b'~', b'@', b'!', b'%', b'\xff', b' ',
+                        b'=', b'[', b'`'):
+                for tok in (run + bad, bad + run,
+                            run[:n // 2] + bad + run[n // 2:]):
+                    one(b'#.change: id=' + tok)
+                    one(b'#.change: ' + tok + b'=v')
+                    one(b'#.change: a=b, id=' + tok + b', c=d')
         acc.sample({'scale': 'option values / keys / counts of 9..65537'}, 1)
     elif unit[0] == 'prefix':
         for hashes in (b'#', b'', b'##', b' #'):
@@ -389,6 +444,7 @@ def run_unit(unit, tier):
 
 
 def replay(payload):
+    _IN_REPLAY[0] = True
     if payload.get('kind') != 'header':
         return []
     kw = {}
